@@ -552,7 +552,7 @@ func fileTmplFor(i int) int {
 		return 0
 	}
 	j := i / 7 // (skeleton, i%3) pairs cycle through all combinations
-	return 1 + pgen.NTemplates + j%pgen.NFileTemplates
+	return 1 + pgen.NTemplates + (j+j/pgen.NFileTemplates)%pgen.NFileTemplates
 }
 
 // tmplFor: every third case is a skeleton program.
